@@ -5,6 +5,7 @@ import json
 import os
 
 from harness import core
+from harness import gen as hgen
 
 MASKS = [b"\x96\x96\x96", b"\x99\x99\x99", b"\x00\x00\x00"]
 
@@ -77,7 +78,7 @@ def run(ctx):
     def g(msg, mask):
         # every other caller owns mutable buffers and uses them again afterwards
         mutable = len(held) % 2 == 1
-        mb, kb = (bytearray(msg), bytearray(mask)) if mutable else (bytes(msg), bytes(mask))
+        mb, kb = (bytearray(msg), bytearray(mask)) if mutable else (hgen.as_caller_bytes(bytes(msg), len(held) // 2), hgen.as_caller_bytes(bytes(mask), len(held) // 2 + 2))
         out = RS.generate(mb, kb)
         if mutable and (bytes(mb) != bytes(msg) or bytes(kb) != bytes(mask)):
             out = bytes(12)          # recorded as a wrong word: the caller's buffers were altered
